@@ -4,7 +4,7 @@
    distance (C07_hav_is_great_circle), `bearing` the bearing returned by bearing_degrees
    (rounded to 1e-5), `bearing_raw` its value before rounding; boundary points are the
    destinations before the 1e-7 degree rounding (C07_dest_rounding bounds the difference). *)
-From GV Require Import Prelude SphereM SphereP1 SphereP2 SphereP3 CurveM CurveP.
+From GV Require Import Prelude SphereM SphereP1 SphereP2 SphereP3 CurveM CurveP SphereP5.
 From Coq Require Import Reals Lra.
 Open Scope R_scope.
 
@@ -175,6 +175,15 @@ Theorem C03_boundary_within_2cm_partial : forall c theta d,
     Rabs (lat (dest_rad_rounded c theta d) - lat q) <= / 2 / 10 ^ 7 + / 10 ^ 19.
 Proof. exact boundary_rounded. Qed.
 Print Assumptions C03_boundary_within_2cm_partial.
+
+(* ... and in METRES: every boundary coordinate the code returns is within 2 cm (haversine) of a point that lies
+   exactly on the defined curve (distance d from the centre, at the scheduled bearing).  What remains unproved of the
+   "2 cm" clause is only the float/libm evaluation error (observed by the correspondence). *)
+Theorem C03_boundary_within_2cm : forall c theta d,
+  -90 <= lat c <= 90 -> 0 <= d <= PI * Rearth ->
+  exists q, hdist c q = d /\ hdist (dest_rad_rounded c theta d) q <= 2 / 100.
+Proof. exact boundary_within_2cm. Qed.
+Print Assumptions C03_boundary_within_2cm.
 
 (* --- non-vacuity --- *)
 Example C03_nonvacuous : let s := mkcircle (10, 45) 5000 [] in
